@@ -69,7 +69,7 @@ def run(rep, tier):
     rep.assumptions += ['the flow solver is not modelled in Coq; flows with obs[...] terms are not generated',
                         'findings D7 (MR* with a repeated target) and D21 (MPAD target order), fixed in /repo, are replayed from the corpus first']
     rng = rep.rng()
-    N = 150 if quick else 6000
+    N = 400 if quick else 6000
     corpus = ['MR 0 0', 'MPAD 0 1', 'MPAD 1 0 0\nH 0', 'MRX 0 1 0 !1\nH 0', 'MRY 1 1 1']
     todo = [(t, True) for t in corpus]
     for _ in range(N):
